@@ -235,7 +235,16 @@ func evalURI(c CaseURI) Result {
 var C14URI = Register(&Check[CaseURI]{
 	Prop: "C14", Name: "C14.uri",
 	Gen: func(t *rapid.T) CaseURI {
-		switch weighted(t, "uri_k", 4, 3, 3) {
+		switch weighted(t, "uri_k", 4, 3, 3, 3) {
+		case 3: // a complete host[:port][;params][?headers] text that a late '@' turns into the user part
+			first := genURISpec(t)
+			first.HasUser, first.HasPass = false, false
+			second := genURISpec(t)
+			second.HasUser, second.HasPass = false, false
+			f := first.Render()
+			sec := second.Render()
+			u := append(append(append([]byte{}, f...), '@'), sec[schemeLen(sec):]...)
+			return CaseURI{U: u}
 		case 0:
 			return CaseURI{U: genURIFull(t)}
 		case 1:
